@@ -81,7 +81,10 @@ def gen_param_design(c, uid):
   cands8 = ["P_%s(Bits8, 1)", "P_%s(Bits8, 2)", "P_%s(Bits8, 1)", "P_%s(Bits8, k=3, tag='abc')",
             "P_%s(Bits8, 1, lst=[1, 2, 3])", "P_%s(Bits8, 1, lst=list(range(40)))", "P_%s(Bits8, 1, lst=list(range(41)))",
             "P_%s(Bits8, 1, tag='a_b')", "P_%s(Bits8, 1, tag='a' * 70)", "Q_%s(8, 2)", "Q_%s(8, 3)", "Q_%s(8, 2)",
-            "P_%s(Bits8, Bits8(1))", "P_%s(Bits8, 0)"]
+            "P_%s(Bits8, Bits8(1))", "P_%s(Bits8, 0)",
+            # keyword arguments incl. falsy values next to the default configuration
+            "P_%s(Bits8)", "P_%s(Bits8, k=0)", "P_%s(Bits8, k=1)", "P_%s(Bits8, tag='')", "P_%s(Bits8, k=0, tag='x')",
+            "Q_%s(8, depth=2)", "Q_%s(8, depth=1)", "Q_%s(nbits=8)"]
   cands16 = ["P_%s(Bits16, 1)", "P_%s(Bits16, 2)", "Q_%s(16, 2)", "Q_%s(16, 1)", "P_%s(Bits16, 1)"]
   for _ in range(c.randint(3, 7)):
     inst8.append(c.choice(cands8) % uid)
